@@ -119,7 +119,7 @@ def main():
                 want = list(p[:-1]) + [1 - sum(p[:-1])]
             else:
                 want = [1.0 / n_cls] * n_cls
-            recs.append({'kind': 'label', 'n': n_cls, 'sorted_y': ob['sorted_y'], 'counts': ob['counts'], 'want1e6': [int(round(w * 1e6)) for w in want], 'ties': ob['ties']})
+            recs.append({'kind': 'label', 'n': n_cls, 'sorted_y': ob['sorted_y'], 'counts': ob['counts'], 'want1e6': [int(round(w * 1e4)) for w in want], 'ties': ob['ties']})
             rkeys.append((key, it, {'counts': ob['counts'], 'want': want, 'ties': ob['ties']}))
         nitems = []
         for p in (0.0, 0.1, 0.2, 0.5, 0.99):
